@@ -107,9 +107,9 @@ class Report:
             sum(1 for o in self.obls if o["status"] == "incomplete"), len({o["rule"] for o in self.obls}),
             time.time() - self.t0))
         print("\n".join(out_lines))
-        if broken:
-            return 2
-        return 1 if new_viol else 0
+        if new_viol:
+            return 1        # a concrete violation outranks an incomplete analysis
+        return 2 if broken else 0
 
     def write_evidence(self, meta, broken, nviol):
         if self.only:
